@@ -78,13 +78,35 @@ fn check(plan: &Plan, ex: &Execution, c18: bool) -> Vec<(String, String)> {
             Outcome::Ok(tag) => {
                 returned_tags.push(tag);
                 let own = ex.tags.get(i).map(String::as_str);
-                let dup_ok = plan.extra.iter().any(|m| {
-                    // a duplicate reply bearing this request's id is also "the server's reply bearing that id"
-                    let s = String::from_utf8_lossy(m);
-                    ex.ids.get(i).map_or(false, |id| s.contains(&format!("message-id=\"{id}\"")))
-                        && s.contains(&format!("<data>{tag}</data>"))
-                });
-                if own != Some(tag.as_str()) && !dup_ok {
+                // if the server sent further replies bearing this request's id: one that is ordered
+                // BEFORE the request's own reply may legitimately be taken for the reply (it is the
+                // first to arrive while the request is outstanding, unless it came before the
+                // request even existed); one ordered AFTER the own reply arrives when the request is
+                // already answered - it matches no outstanding request and must never be delivered
+                let id_attr = ex.ids.get(i).map(|id| format!("message-id=\"{id}\""));
+                let own_at = ex.actions.iter().position(|a| *a == Action::Deliver(i));
+                let mut earlier_dup_tags: Vec<String> = Vec::new();
+                let mut later_dup_tags: Vec<String> = Vec::new();
+                for (k, a) in ex.actions.iter().enumerate() {
+                    if let Action::DeliverExtra(j) = a {
+                        let m = String::from_utf8_lossy(&plan.extra[*j]).into_owned();
+                        if id_attr.as_ref().map_or(false, |attr| m.contains(attr.as_str())) {
+                            if let Some(t) = m.split("<data>").nth(1).and_then(|r| r.split("</data>").next()) {
+                                if own_at.map_or(true, |o| k < o) {
+                                    earlier_dup_tags.push(t.to_string());
+                                } else {
+                                    later_dup_tags.push(t.to_string());
+                                }
+                            }
+                        }
+                    }
+                }
+                if own != Some(tag.as_str()) && later_dup_tags.iter().any(|t| t == tag) && !earlier_dup_tags.iter().any(|t| t == tag) {
+                    v.push((
+                        "later-duplicate-reply-delivered".into(),
+                        format!("request #{i} (message-id {:?}) resolved to {tag:?}, a reply that arrived after the request's own reply {own:?} had answered it", ex.ids.get(i)),
+                    ));
+                } else if own != Some(tag.as_str()) && !earlier_dup_tags.iter().any(|t| t == tag) {
                     v.push((
                         if c18 { "survivor-got-wrong-reply".into() } else { "wrong-reply".into() },
                         format!("request #{i} (message-id {:?}) resolved to {tag:?}, its own reply carried {own:?}", ex.ids.get(i)),
